@@ -25,6 +25,15 @@ package drpcmux
 //@   ghost entry rerr = nil
 //@   ghost after:MsgRecv rerr = ret
 //@   site receiver assert [C10.decoded-first] rerr == nil
+//@   ghost entry known = false
+//@   ghost entry unary = false
+//@   ghost entry dm = nil
+//@   ghost call:MsgRecv dm = arg1
+//@   site receiver assert [C10.registered-only] old(haskey(m.rpcs, rpc)) && arg0 == old(m.rpcs[rpc].srv) && arg3 == stream
+//@   site receiver assert [C10.request-kind] (eventCount("invoke:MsgRecv") == 1) == old(m.rpcs[rpc].in1 != streamType)
+//@   site receiver assert [C10.passes-decoded-request] (eventCount("invoke:MsgRecv") == 1 ==> arg2 == dm) && (eventCount("invoke:MsgRecv") == 0 ==> arg2 == stream)
+//@   check [C10.unknown-rpc-rejected] !old(haskey(m.rpcs, rpc)) ==> err != nil && eventCount("dyn:receiver") == 0 && eventCount("invoke:MsgRecv") == 0
+//@   check [C10.known-rpc-dispatched] old(haskey(m.rpcs, rpc)) && rerr == nil && eventCount("call:(*Class).New") == 0 ==> eventCount("dyn:receiver") == 1
 //@   check [C10.unknown-rpc]      eventCount("dyn:receiver") == 0 && eventCount("invoke:MsgRecv") == 0 ==> err != nil
 //@   check [C10.decode-error]     rerr != nil ==> err != nil && chainCode(err) == chainCode(rerr) && methodStr(err, "Error") == methodStr(rerr, "Error") && eventCount("dyn:receiver") == 0
 //@   check [C10.handler-error]    herr != nil ==> err != nil && chainCode(err) == chainCode(herr) && methodStr(err, "Error") == methodStr(herr, "Error") && eventCount("invoke:MsgSend") == 0 && eventCount("invoke:CloseSend") == 0
